@@ -861,6 +861,12 @@ class SFrame:
     def head(self, n=5):
         return self._rows(list(range(_b_min(n, len(self)))))
 
+    def iterrows(self):
+        labels = list(_index_arr(self._index, len(self))) if not isinstance(self._index, _pd.Index) else list(self._index)
+        for i, lab in enumerate(labels):
+            row = _Row({k: (c.items[i] if isinstance(c, SArr) else (c.to_real()[i] if isinstance(c, SCat) else c[i])) for k, c in self._cols.items()})
+            yield lab, row
+
     def to_csv(self, *a, **kw):
         # stub E9: text rendering is not a subject; rows written to a stream are recorded for the harness
         target = a[0] if a else kw.get("path_or_buf")
@@ -1106,6 +1112,17 @@ class SFrame:
         return _np.asarray(self.to_real(), dtype=dtype)
 
 
+class _Row:
+    """one row of a frame (attribute and key access)"""
+
+    def __init__(self, d):
+        self.__dict__.update(d)
+        self._d = d
+
+    def __getitem__(self, k):
+        return self._d[k]
+
+
 class _Loc:
     def __init__(self, obj):
         self.obj = obj
@@ -1131,6 +1148,10 @@ class _Loc:
 
     def __getitem__(self, k):
         obj = self.obj
+        if isinstance(obj, SSeries) and isinstance(obj._index, _pd.Index) and not isinstance(k, (SSeries, SArr, slice, tuple)):
+            pos = obj._index.get_loc(k)   # label lookup on a concrete (string) index
+            c = obj._col
+            return c.items[pos] if isinstance(c, SArr) else (c.to_real()[pos] if isinstance(c, SCat) else c[pos])
         if isinstance(k, tuple):
             rk, ck = k
             kind, sel = self._row_positions(rk)
